@@ -1,0 +1,52 @@
+//go:build verif
+
+package apk
+
+import (
+	"archive/tar"
+	"context"
+	"io"
+	"net/http"
+	"net/url"
+)
+
+// Wrappers for the verification harness of property C18 (build tag verif
+// only). They add no behaviour.
+
+// VerifSanitizeArchivePath exposes sanitizeArchivePath.
+func VerifSanitizeArchivePath(d, t string) (string, error) { return sanitizeArchivePath(d, t) }
+
+// VerifCachePathFromURL exposes cachePathFromURL.
+func VerifCachePathFromURL(root string, u url.URL) (string, error) { return cachePathFromURL(root, u) }
+
+// VerifCacheFileFromEtag exposes cacheFileFromEtag.
+func VerifCacheFileFromEtag(cacheFile, etag string) (string, error) {
+	return cacheFileFromEtag(cacheFile, etag)
+}
+
+// VerifCacheDirFromFile exposes cacheDirFromFile.
+func VerifCacheDirFromFile(cacheFile string) string { return cacheDirFromFile(cacheFile) }
+
+// VerifEtagFromResponse exposes etagFromResponse.
+func VerifEtagFromResponse(resp *http.Response) (string, bool) { return etagFromResponse(resp) }
+
+// VerifCacheDirForPackage exposes cacheDirForPackage.
+func VerifCacheDirForPackage(root string, pkg InstallablePackage) (string, error) {
+	return cacheDirForPackage(root, pkg)
+}
+
+// VerifInstallAPKFiles exposes (*APK).installAPKFiles: install the entries of
+// an uncompressed tar stream onto the APK's filesystem.
+func VerifInstallAPKFiles(ctx context.Context, a *APK, in io.Reader, pkg *Package) ([]tar.Header, error) {
+	return a.installAPKFiles(ctx, in, pkg)
+}
+
+// VerifParseRepositoryIndex exposes parseRepositoryIndex with default options.
+func VerifParseRepositoryIndex(ctx context.Context, u string, keys map[string][]byte, arch string, b []byte) (*APKIndex, error) {
+	return parseRepositoryIndex(ctx, u, keys, arch, b, &indexOpts{})
+}
+
+// VerifFetchChainguardKeys exposes (*APK).fetchChainguardKeys.
+func VerifFetchChainguardKeys(ctx context.Context, a *APK, repository string) error {
+	return a.fetchChainguardKeys(ctx, repository)
+}
